@@ -1,4 +1,4 @@
-import TracklibVerif.Lemmas.FeaturesResult
+import TracklibVerif.Lemmas.FeaturesInit
 /-! # C01 — the feature table stays aligned with the observations under any operation history
 
 Property theorems only. `St` is the model of the code (`Model/Features.lean`: the dict name → column index and
@@ -6,9 +6,11 @@ the per-observation `features` lists, every operation with the partial effects P
 `ATab` is the specification: an association list name ↦ column without any index. `Inv n st` says that `st`
 is aligned (the dict enumerates its distinct names, every observation carries exactly one value per listed
 name, `n` observations); `abs` forgets the indices. `Op` covers create / update / remove / bracket
-assignment / setObs / addAnalyticalFeature / unary, binary, scalar void operators / a non-void aggregate /
-`operate(str)` on an arbitrary RPN token list over `= + - *`. All statements are for every scalar type `V`
-and every interpretation `o : Ops V` of the arithmetic (the driver runs them at `Float`). -/
+assignment / setObs / addAnalyticalFeature / unary, binary, scalar void operators of every family (those whose
+arithmetic raises mid-way included) / value-returning aggregates / `computeAbsCurv`, `estimate_speed`,
+`segmentation` / `operate(str)` on an arbitrary RPN token list over `= + - * / ^ % < > & $ @`. All statements
+are for every scalar type `V`, every feature name (any string) and every interpretation `o : Ops V` of the
+arithmetic, exceptions included (the driver runs them at `Float`). -/
 set_option linter.unusedSectionVars false
 namespace TV.C01
 open TV.Features
@@ -27,69 +29,92 @@ theorem inv_fresh (xs ys zs ts : List V) (hy : ys.length = xs.length) (hz : zs.l
   obtain ⟨_, _, rfl⟩ := hr
   rfl
 
-/-- T1b: every API call keeps the table aligned, whether it returns or raises (list initialisers must cover
-the track: `OpOK`). After the call every observation still carries exactly one value per listed name. -/
-theorem inv_step (o : Ops V) (op : Op V) (st : St V) (h : Inv n st) (hok : OpOK n op) :
-    Inv n (step o op st).2 := (sim_step o op hok st h).1
+/-- T1b: every API call keeps the table aligned, whether it returns or raises (a list initialiser
+shorter than the track included: since fix 2976f2b it is refused before anything is written). After the call every observation still carries exactly one value per listed name. -/
+theorem inv_step (o : Ops V) (op : Op V) (st : St V) (h : Inv n st) :
+    Inv n (step o op st).2 := (sim_step o op st h).1
 
 /-- T2: refinement. On an aligned table every API call of the code does exactly what the same call does on the
 name ↦ column table: same outcome (value returned or exception kind) and corresponding resulting tables.
 Everything observable through names (listed names in order, every column, coordinates) therefore evolves as
 in the specification, where "reading a name returns what was last written under it", "delete does not touch
 the other names" and "nothing else changes" hold by construction. -/
-theorem step_refines (o : Ops V) (op : Op V) (st : St V) (h : Inv n st) (hok : OpOK n op) :
-    step o op (abs st) = ((step o op st).1, abs (step o op st).2) := (sim_step o op hok st h).2.1
+theorem step_refines (o : Ops V) (op : Op V) (st : St V) (h : Inv n st) :
+    step o op (abs st) = ((step o op st).1, abs (step o op st).2) := (sim_step o op st h).2.1
 
 /-- T3a: every state reached along any finite history is aligned. -/
-theorem history_aligned (o : Ops V) (ops : List (Op V)) (st : St V) (h : Inv n st)
-    (hok : ∀ op ∈ ops, OpOK n op) : ∀ r ∈ trace o ops st, Inv n r.2 := by
+theorem history_aligned (o : Ops V) (ops : List (Op V)) (st : St V) (h : Inv n st): ∀ r ∈ trace o ops st, Inv n r.2 := by
   induction ops generalizing st with
   | nil => intro r hr; simp [trace] at hr
   | cons op rest ih =>
     intro r hr
-    have h1 := inv_step o op st h (hok op (by simp))
+    have h1 := inv_step o op st h
     simp only [trace, List.mem_cons] at hr
     rcases hr with rfl | hr
     · exact h1
-    · exact ih _ h1 (fun op' h' => hok op' (by simp [h'])) r hr
+    · exact ih _ h1 r hr
 
 /-- T3b: along any finite history the code and the specification produce the same outcomes, and the tables
 correspond after every call. -/
-theorem history_refines (o : Ops V) (ops : List (Op V)) (st : St V) (h : Inv n st)
-    (hok : ∀ op ∈ ops, OpOK n op) :
+theorem history_refines (o : Ops V) (ops : List (Op V)) (st : St V) (h : Inv n st):
     trace o ops (abs st) = (trace o ops st).map (fun r => (r.1, abs r.2)) := by
   induction ops generalizing st with
   | nil => rfl
   | cons op rest ih =>
-    have h1 := inv_step o op st h (hok op (by simp))
-    have h2 := step_refines o op st h (hok op (by simp))
+    have h1 := inv_step o op st h
+    have h2 := step_refines o op st h
     simp only [trace, List.map_cons]
     rw [h2]
     simp only
-    rw [ih _ h1 (fun op' h' => hok op' (by simp [h']))]
+    rw [ih _ h1]
 
 /-- T3c: the same for the final state. -/
-theorem run_refines (o : Ops V) (ops : List (Op V)) (st : St V) (h : Inv n st)
-    (hok : ∀ op ∈ ops, OpOK n op) :
+theorem run_refines (o : Ops V) (ops : List (Op V)) (st : St V) (h : Inv n st):
     Inv n (runOps o ops st) ∧ abs (runOps o ops st) = runOps o ops (abs st) := by
   induction ops generalizing st with
   | nil => exact ⟨h, rfl⟩
   | cons op rest ih =>
-    have h1 := inv_step o op st h (hok op (by simp))
-    have h2 := step_refines o op st h (hok op (by simp))
-    have := ih _ h1 (fun op' h' => hok op' (by simp [h']))
+    have h1 := inv_step o op st h
+    have h2 := step_refines o op st h
+    have := ih _ h1
     simp only [runOps, List.foldl_cons] at this ⊢
     rw [h2]
     exact this
 
-/-- T4: after `operate(str)` no listed name starts with `#`, for every RPN token list, whether the
-evaluation returned or raised (the purge sits in a `finally`), including `#` names listed before the call. -/
+/-- the empty string is not a `#` name -/
+theorem isHash_empty : isHash "" = false := by decide +kernel
+
+/-- a name that is neither listed before `operate(str)` nor a token of the expression is not listed after the
+evaluation (before the purge) either — used for the empty name -/
+theorem evaluate_no_new_name (o : Ops V) (rpn : List String) (st : St V) (h : Inv n st) (m : String)
+    (hm : m ∉ names st) (hrpn : m ∉ rpn) (hh : isHash m = false) : m ∉ names (evaluate o rpn st).2 := by
+  have hev := sim_evaluate (n := n) o rpn st h
+  have hsame := (frame_evaluate o rpn (abs st)).1
+  rw [hev.2.1] at hsame
+  simp only at hsame
+  have hT : ¬ exprT rpn m := by
+    intro ht
+    rcases ht with ⟨h1, _⟩ | h2
+    · exact hrpn h1
+    · rw [hh] at h2; cases h2
+  have hl := hsame.cols m hT
+  intro hmem
+  have h1 : (lookup (abs (evaluate o rpn st).2).cols m).isSome = true := by
+    apply lookup_isSome_of_mem
+    have := names_abs (evaluate o rpn st).2
+    unfold anames at this
+    rw [this]; exact hmem
+  rw [hl, abs_lookup, find_none_of_not_mem _ _ hm] at h1
+  cases h1
+
+/-- T4: after `operate(str)` no listed name starts with `#`, for every RPN token list and every table — the empty
+string as a feature name or a token included (fix 06982f0: `af.startswith("#")`) —, whether the evaluation returned
+or raised (the purge sits in a `finally`; an operator failing mid-way included), including `#` names listed before the call. -/
 theorem no_temporaries (o : Ops V) (rpn : List String) (st : St V) (h : Inv n st) :
     ∀ nm ∈ names (step o (.expr rpn) st).2, isHash nm = false := by
-  have hsim := sim_step (n := n) o (.expr rpn) trivial st h
+  have hsim := sim_step (n := n) o (.expr rpn) st h
   -- the state after evaluation (before the purge) is aligned, hence has distinct names
   have hev := sim_evaluate (n := n) o rpn st h
-  have hst : (step o (Op.expr rpn) st).2 = (purge (σ := St V) (evaluate o rpn st).2).2 := tryFinally_snd _ _ _
   have habs : abs (step o (Op.expr rpn) st).2 = (purge (σ := ATab V) (abs (evaluate o rpn st).2)).2 := by
     have e1 := hsim.2.1
     have e2 : (step (σ := ATab V) o (Op.expr rpn) (abs st)).2
@@ -104,6 +129,18 @@ theorem no_temporaries (o : Ops V) (rpn : List String) (st : St V) (h : Inv n st
   simp only [anames, List.mem_map, List.mem_filter] at hnm
   obtain ⟨p, ⟨_, hp⟩, rfl⟩ := hnm
   simpa using hp
+
+/-- a list initialiser shorter than the track with a new name (fix 2976f2b): `createAnalyticalFeature(nm, l)` raises
+IndexError and the track is exactly as it was — nothing registered, no observation extended. -/
+theorem short_list_refused (st : St V) (h : Inv n st) (nm : String) (l : List V)
+    (hr : reserved nm = false) (hn : n ≠ 0) (hnew : nm ∉ names st) (hl : l.length < n) :
+    createC nm (.list l) st = (.error .index, st) := by
+  unfold createC
+  have h1 : st.rows.isEmpty = false := by rw [isEmpty_rows h]; simpa using hn
+  have h2 : hasC st nm = false := by
+    simp [hasC, find_none_of_not_mem st.dico nm hnew, hr]
+  have h3 : l.length < st.rows.length := by rw [h.size]; exact hl
+  simp [hr, h1, h2, h3]
 
 /-! ## Consequences read on the code's table: `read o st m` is what `getAnalyticalFeature(m)` returns -/
 
@@ -127,7 +164,7 @@ theorem read_after_create (o : Ops V) (st : St V) (h : Inv n st) (nm : String) (
     (hok' : match init with | .scalar _ => True | .list l => n ≤ l.length) :
     (createC nm init st).1 = .ok () ∧ read o (createC nm init st).2 nm = .ok (initCol n init) ∧
     ∀ m, m ≠ nm → read o (createC nm init st).2 m = read o st m := by
-  have hs := sim_create (n := n) nm init hok'
+  have hs := sim_create (n := n) nm init
   obtain ⟨e1, e2⟩ := sim_snd hs h
   have hi := (hs st h).1
   have hl : lookup (abs st).cols nm = none := by
@@ -250,7 +287,10 @@ theorem prims_keep_coords (st : St V) (nm : String) (init : Init V) (i : Nat) (v
     split <;> (try rfl)
     split <;> (try rfl)
     split <;> (try rfl)
-    split <;> cases c <;> rfl
+    split
+    · cases c <;> rfl
+    · simp only
+      split <;> cases c <;> rfl
   · unfold updateC
     split <;> (try rfl)
     split <;> (try rfl)
@@ -269,11 +309,11 @@ theorem prims_keep_coords (st : St V) (nm : String) (init : Init V) (i : Nat) (v
 raising — a name the call does not designate (`touched`: the written name; for an expression its non-operator
 tokens and the `#` names) reads exactly as before, whether it is a feature, a coordinate `x y z`, the
 timestamps `t` or `idx`; and it is listed afterwards iff it was listed before. -/
-theorem step_frame (o : Ops V) (op : Op V) (st : St V) (h : Inv n st) (hok : OpOK n op) (m : String)
+theorem step_frame (o : Ops V) (op : Op V) (st : St V) (h : Inv n st) (m : String)
     (hm : ¬ touched op m) :
     read o (step o op st).2 m = read o st m ∧ (m ∈ names (step o op st).2 ↔ m ∈ names st) := by
-  have hi := inv_step o op st h hok
-  have href := step_refines o op st h hok
+  have hi := inv_step o op st h
+  have href := step_refines o op st h
   have hsame := (frame_step o op (abs st)).1
   rw [href] at hsame
   simp only at hsame
@@ -287,7 +327,7 @@ theorem step_frame (o : Ops V) (op : Op V) (st : St V) (h : Inv n st) (hok : OpO
 /-- T5 for the aggregate `SUM` (a non-void operator): the table is left exactly as it was. -/
 theorem sum_keeps_table (o : Ops V) (inp : String) (st : St V) (h : Inv n st) (m : String) :
     read o (step o (.sum inp) st).2 m = read o st m :=
-  (step_frame o (.sum inp) st h trivial m (fun hf => hf)).1
+  (step_frame o (.sum inp) st h m (fun hf => hf)).1
 
 /-- reading `out` after a void operator that returned `temp`, from the corresponding fact on the specification -/
 theorem read_of_lookup (o : Ops V) (st' : St V) (h' : Inv n st') (out : String) (temp : List V)
@@ -299,44 +339,147 @@ feature reads exactly `temp` (whether it was created by the call or overwritten,
 theorem binaryVoid_read_back (o : Ops V) (k : BOp) (in1 in2 : String) (out : Option String) (st : St V)
     (h : Inv n st) (temp : List V) (hres : (step o (.binaryVoid k in1 in2 out) st).1 = .ok (.col temp)) :
     read o (step o (.binaryVoid k in1 in2 out) st).2 (out.getD in1) = .ok temp := by
-  have href := step_refines o (.binaryVoid k in1 in2 out) st h trivial
+  have href := step_refines o (.binaryVoid k in1 in2 out) st h
   rw [hres] at href
   obtain ⟨l, a1, h1, h2⟩ := bind_ok href
   have : ((Except.ok (Ret.col l) : Except Err (Ret V)), a1) = (Except.ok (Ret.col temp), abs (step o (.binaryVoid k in1 in2 out) st).2) := h2
   cases this
   obtain ⟨hr, hl⟩ := binaryVoid_result o k in1 in2 _ _ _ _ (ainv_abs h) h1
-  exact read_of_lookup o _ (inv_step o (.binaryVoid k in1 in2 out) st h trivial) _ _ hr hl
+  exact read_of_lookup o _ (inv_step o (.binaryVoid k in1 in2 out) st h) _ _ hr hl
 
 /-- T6b: the same for the scalar void operators (SCALAR_ADDER, SCALAR_SUBSTRACTER, SCALAR_REV_SUBSTRACTER, SCALAR_MULTIPLIER). -/
 theorem scalarVoid_read_back (o : Ops V) (k : SOp) (inp : String) (arg : V) (out : Option String) (st : St V)
     (h : Inv n st) (temp : List V) (hres : (step o (.scalarVoid k inp arg out) st).1 = .ok (.col temp)) :
     read o (step o (.scalarVoid k inp arg out) st).2 (out.getD inp) = .ok temp := by
-  have href := step_refines o (.scalarVoid k inp arg out) st h trivial
+  have href := step_refines o (.scalarVoid k inp arg out) st h
   rw [hres] at href
   obtain ⟨l, a1, h1, h2⟩ := bind_ok href
   have : ((Except.ok (Ret.col l) : Except Err (Ret V)), a1) = (Except.ok (Ret.col temp), abs (step o (.scalarVoid k inp arg out) st).2) := h2
   cases this
   obtain ⟨hr, hl⟩ := scalarVoid_result o k inp arg _ _ _ _ (ainv_abs h) h1
-  exact read_of_lookup o _ (inv_step o (.scalarVoid k inp arg out) st h trivial) _ _ hr hl
+  exact read_of_lookup o _ (inv_step o (.scalarVoid k inp arg out) st h) _ _ hr hl
 
 /-- T6c: the same for the unary void operators (INTEGRATOR, DIFFERENTIATOR). -/
 theorem unaryVoid_read_back (o : Ops V) (k : UOp) (inp : String) (out : Option String) (st : St V)
     (h : Inv n st) (temp : List V) (hres : (step o (.unaryVoid k inp out) st).1 = .ok (.col temp)) :
     read o (step o (.unaryVoid k inp out) st).2 (out.getD inp) = .ok temp := by
-  have href := step_refines o (.unaryVoid k inp out) st h trivial
+  have href := step_refines o (.unaryVoid k inp out) st h
   rw [hres] at href
   obtain ⟨l, a1, h1, h2⟩ := bind_ok href
   have : ((Except.ok (Ret.col l) : Except Err (Ret V)), a1) = (Except.ok (Ret.col temp), abs (step o (.unaryVoid k inp out) st).2) := h2
   cases this
   obtain ⟨hr, hl⟩ := unaryVoid_result o k inp _ _ _ _ (ainv_abs h) h1
-  exact read_of_lookup o _ (inv_step o (.unaryVoid k inp out) st h trivial) _ _ hr hl
+  exact read_of_lookup o _ (inv_step o (.unaryVoid k inp out) st h) _ _ hr hl
+
+/-- T6d: the same for every APPLY-based unary void operator (RECTIFIER, SQRT, DIODE, SIGN, EXP, COS, SIN, TAN, INVERSER … —
+any cell function `f`, which may raise mid-way: then nothing is returned and the statement is about returning calls). -/
+theorem applyVoid_read_back (o : Ops V) (f : V → Except Err V) (inp out : String) (st : St V)
+    (h : Inv n st) (temp : List V) (hres : (applyVoid o f inp out st).1 = .ok temp) :
+    read o (applyVoid o f inp out st).2 out = .ok temp := by
+  obtain ⟨hi, href, _⟩ := sim_applyVoid (n := n) o f inp out st h
+  rw [hres] at href
+  obtain ⟨hr, hl⟩ := applyVoid_result o f inp out _ _ _ (ainv_abs h) href
+  exact read_of_lookup o _ hi _ _ hr hl
+
+/-- a successful `m >>= f` on the code's table: `m` succeeded and the whole is `f` run on `m`'s result and state -/
+theorem bind_fst_ok {σ α β : Type} {m : M σ α} {f : α → M σ β} {s : σ} {x : β}
+    (h : ((m >>= f) s).1 = .ok x) : ∃ y, (m s).1 = .ok y ∧ (m >>= f) s = f y (m s).2 := by
+  have h' : (M.bind m f s).1 = .ok x := h
+  show ∃ y, (m s).1 = .ok y ∧ M.bind m f s = f y (m s).2
+  unfold M.bind at h' ⊢
+  cases hm : m s with
+  | mk r s1 =>
+    rw [hm] at h'
+    cases r with
+    | error e => cases h'
+    | ok y => exact ⟨y, rfl, rfl⟩
+
+theorem scalarVoid_fn_read_back (o : Ops V) (k : SOp) (inp : String) (arg : V) (out : String) (st : St V)
+    (h : Inv n st) (temp : List V) (hres : (scalarVoid o k inp arg out st).1 = .ok temp) :
+    Features.read o (scalarVoid o k inp arg out st).2 out = .ok temp := by
+  obtain ⟨hi, href, _⟩ := sim_scalarVoid (n := n) o k inp arg out st h
+  rw [hres] at href
+  obtain ⟨hr, hl⟩ := scalarVoid_result o k inp arg out _ _ _ (ainv_abs h) href
+  exact read_of_lookup o _ hi _ _ hr hl
+
+theorem shiftCircular_fn_read_back (o : Ops V) (inp : String) (arg : V) (out : String) (st : St V)
+    (h : Inv n st) (temp : List V) (hres : (shiftCircular o inp arg out st).1 = .ok temp) :
+    Features.read o (shiftCircular o inp arg out st).2 out = .ok temp := by
+  obtain ⟨hi, href, _⟩ := sim_shiftCircular (n := n) o inp arg out st h
+  rw [hres] at href
+  obtain ⟨hr, hl⟩ := shiftCircular_result o inp arg out _ _ _ (ainv_abs h) href
+  exact read_of_lookup o _ hi _ _ hr hl
+
+/-- T6e: the same for SCALAR_DIVIDER, SCALAR_REV_DIVIDER (two operators in a row, the first of which may raise mid-way),
+SHIFT_CIRCULAR, SHIFT_CIRCULAR_REV and the twelve plain scalar operators (`scalarKind`): when the call returns `temp`,
+the output feature reads `temp`. -/
+theorem scalarKind_read_back (o : Ops V) (k : SKind) (inp : String) (arg : V) (out : String) (st : St V)
+    (h : Inv n st) (temp : List V) (hres : (scalarKind o k inp arg out st).1 = .ok temp) :
+    Features.read o (scalarKind o k inp arg out st).2 out = .ok temp := by
+  cases k with
+  | plain s => exact scalarVoid_fn_read_back o s inp arg out st h temp hres
+  | divider =>
+    unfold scalarKind scalarDivider at hres ⊢
+    by_cases hz : o.eqZero arg = true
+    · simp [hz, M.throw] at hres
+    · simp only [hz, Bool.false_eq_true, if_false] at hres ⊢
+      exact scalarVoid_fn_read_back o _ inp _ out st h temp hres
+  | revDivider =>
+    have e : scalarKind o .revDivider inp arg out st
+        = ((applyVoid o (inverse o) inp out >>= fun _ => scalarVoid o .multiplier out arg out) st) := rfl
+    rw [e] at hres ⊢
+    obtain ⟨y, _, h2⟩ := bind_fst_ok hres
+    rw [h2] at hres ⊢
+    exact scalarVoid_fn_read_back o _ out arg out _ (sim_applyVoid (n := n) o (inverse o) inp out st h).1 temp hres
+  | shift => exact shiftCircular_fn_read_back o inp arg out st h temp hres
+  | shiftRev => exact shiftCircular_fn_read_back o inp _ out st h temp hres
+
+/-- T5 for the value-returning aggregates SUM AVG MIN MAX ARGMIN ARGMAX (`aggFn`, any aggregate function, raising or
+not): the table is left exactly as it was. -/
+theorem agg_keeps_table (o : Ops V) (f inp : String) (st : St V) (h : Inv n st) (m : String) :
+    read o (step o (.aggFn f inp) st).2 m = read o st m :=
+  (step_frame o (.aggFn f inp) st h m (fun hf => hf)).1
+
+/-- T7: every read path returns the same values. On an aligned table, whatever `getAnalyticalFeature(m)` returns as
+column — for a feature name (any string: `X`, `E`, `N`, `idx2`, the empty string …), a coordinate `x y z`, `t` or
+`idx` — `getObsAnalyticalFeature(m, i)` (= `track[m, i]`, and the read every operator and `setX/Y/ZFromAnalyticalFeature`
+makes) returns its `i`-th element and changes nothing. -/
+theorem cell_read_agrees (o : Ops V) (st : St V) (h : Inv n st) (m : String) (col : List V)
+    (hc : read o st m = .ok col) (i : Nat) (hi : i < col.length) :
+    (getObsC o m i st).1 = .ok (col[i]'hi) ∧ (getObsC o m i st).2 = st := by
+  refine ⟨?_, getObsC_state o m i st⟩
+  have hs := (sim_getObs (n := n) o m i st h).2.1
+  have ha : (getA o m (abs st)).1 = .ok col := by
+    have := read_abs o h m
+    unfold Features.read Features.aread at this
+    rw [← this]; exact hc
+  rw [acell_agrees o (abs st) m col ha i hi] at hs
+  exact (congrArg Prod.fst hs).symm
+
+/-- T8: a track that is handed a table — what `copy()`, `extract`, a slice and `+` build (`__transmitAF` copies the
+dict, the observations keep their `features`) — is aligned and carries exactly that table, provided the names are
+distinct and every column has one value per observation; every theorem above then applies to the histories that start
+from it. -/
+theorem carried_table_aligned (cols : List (String × List V)) (xs ys zs ts : List V)
+    (hnd : (cols.map Prod.fst).Nodup) (hlen : ∀ p ∈ cols, p.2.length = xs.length)
+    (hy : ys.length = xs.length) (hz : zs.length = xs.length) (ht : ts.length = xs.length) :
+    Inv xs.length (mkSt cols xs ys zs ts) ∧
+    abs (mkSt cols xs ys zs ts) = { cols := cols, xs := xs, ys := ys, zs := zs, ts := ts } :=
+  ⟨inv_mkSt cols xs ys zs ts hnd hy hz ht, abs_mkSt cols xs ys zs ts hlen⟩
 
 /-! ## Non-vacuity: an explicit history with delete-then-recreate, over the integers -/
 
 /-- integer arithmetic, `-1000` standing for NaN; only the literals `2` and `3` parse -/
 def iops : Ops Int :=
   { zero := 0, nan := -1000, add := (· + ·), sub := (· - ·), mul := (· * ·), ofNat := Int.ofNat,
-    isNaN := fun v => v == -1000, parse := fun s => if s == "2" then some 2 else if s == "3" then some 3 else none }
+    isNaN := fun v => v == -1000, parse := fun s => if s == "2" then some 2 else if s == "3" then some 3 else none,
+    one := 1, divide := (· / ·), eqZero := fun v => v == 0,
+    pow := fun a b => if b < 0 then (if a == 0 then .error .value else .ok 0) else .ok (a ^ b.toNat),
+    mod := fun a b => if b == 0 then .error .value else .ok (a % b),
+    lt := fun a b => decide (a < b),
+    fn := fun f v => if f == "SQRT" && v < 0 then .error .value else .ok (if f == "ABS" then Int.ofNat v.natAbs else v),
+    agg := fun f l => if f == "AVG" && l.isEmpty then .error .value else .ok (l.foldl (· + ·) 0),
+    shiftIdx := fun k i m => if m == 0 then .error .value else .ok ((((i : Int) - k) % (m : Int)).toNat) }
 
 def t0 : St Int := fresh [10, 11, 12] [20, 22, 24] [30, 33, 36] [1000, 1001, 1002]
 
@@ -346,10 +489,6 @@ def hist : List (Op Int) :=
    .remove "a", .create "a" (.scalar 0), .expr ["b", "c", "2", "*", "a", "+", "="]]
 
 example : Inv 3 t0 := inv_fresh [10, 11, 12] _ _ _ rfl rfl rfl
-example : ∀ op ∈ hist, OpOK 3 op := by
-  intro op hop
-  simp only [hist, List.mem_cons, List.not_mem_nil, or_false] at hop
-  rcases hop with rfl | rfl | rfl | rfl | rfl | rfl <;> simp [OpOK]
 example : (runOps iops hist t0).dico = [("c", 0), ("a", 1), ("b", 2)] := by decide +kernel
 example : (runOps iops hist t0).rows = [[4, 0, 8], [5, 0, 10], [6, 0, 12]] := by decide +kernel
 example : (runOps iops hist (abs t0)).cols = [("c", [4, 5, 6]), ("a", [0, 0, 0]), ("b", [8, 10, 12])] := by decide +kernel
@@ -371,5 +510,37 @@ example : ((trace iops [.create "a" (.scalar 5), .expr ["y", "3", "="]] (abs t0)
 example : ((trace iops [.expr ["x", "2", "3", "*", "="], .expr ["t", "3", "="]] t0).map
     (fun r => (r.1.toOption.isSome, r.2.xs, r.2.ts))) =
     [(true, [6, 6, 6], [1000, 1001, 1002]), (false, [6, 6, 6], [1000, 1001, 1002])] := by decide +kernel
+
+/-- an operator that raises mid-way: `c = 2/a` with a zero in `a`. INVERSER has already created its output `#0` when
+`1.0 / 0` raises at the second observation; the call raises, the temporary is purged, `c` is not created, `a` and
+the coordinates are as before, every observation carries one value -/
+example : ((trace iops [.create "a" (.list [1, 0, 3]), .expr ["c", "2", "a", "/", "="]] t0).map
+    (fun r => (r.1.toOption.isSome, r.2.dico, r.2.rows, r.2.xs))) =
+    [(true, [("a", 0)], [[1], [0], [3]], [10, 11, 12]), (false, [("a", 0)], [[1], [0], [3]], [10, 11, 12])] := by decide +kernel
+/-- the same expression when no value is zero: `c` reads `(1 / a) * 2` as SCALAR_REV_DIVIDER computes it (integer
+division here), no temporary is left -/
+example : ((runOps iops [.create "a" (.list [1, 2, 3]), .expr ["c", "2", "a", "/", "="]] t0).dico,
+    (runOps iops [.create "a" (.list [1, 2, 3]), .expr ["c", "2", "a", "/", "="]] t0).rows) =
+    ([("a", 0), ("c", 1)], [[1, (1 / 1) * 2], [2, (1 / 2) * 2], [3, (1 / 3) * 2]]) := by decide +kernel
+/-- operators `% ^ <`, a shift and a function call in one expression: `c = ABS{a} % 3 + (a ^ 2) + (a < 2) + (a >> 2)` -/
+example : (runOps iops [.create "a" (.list [1, 2, 3]),
+    .expr ["c", "ABS", "a", "@", "3", "%", "a", "2", "^", "+", "a", "2", "<", "+", "a", "2", "&", "+", "="]] t0).rows =
+    [[1, 1 + 1 + 1 + 2], [2, 2 + 4 + 0 + 3], [3, 0 + 9 + 0 + 1]] := by decide +kernel
+/-- with a feature whose name is the empty string the purge works like for any other name (fix 06982f0; `af[0]` used
+to raise IndexError there and `#0` stayed listed) -/
+example : ((trace iops [.create "" (.scalar 5), .create "a" (.scalar 1), .expr ["c", "a", "2", "+", "="]] t0).map
+    (fun r => (r.1.toOption.isSome, r.2.dico.map Prod.fst))) =
+    [(true, [""]), (true, ["", "a"]), (true, ["", "a", "c"])] := by decide +kernel
+/-- a short list initialiser (fix 2976f2b): refused, the track as it was; the next call works on an aligned table -/
+example : ((trace iops [.create "a" (.list [1, 2]), .setItem "b" (.list [7]), .create "a" (.list [1, 2, 3])] t0).map
+    (fun r => (r.1.toOption.isSome, r.2.dico, r.2.rows))) =
+    [(false, [], [[], [], []]), (false, [], [[], [], []]), (true, [("a", 0)], [[1], [2], [3]])] := by decide +kernel
+/-- a carried table: the track built by `extract` / `copy` / `+` from columns `a`, `N` is aligned -/
+example : Inv 2 (mkSt [("a", [1, 2]), ("N", [3, 4])] [10, 11] [20, 22] [30, 33] [1000, 1001] : St Int) :=
+  (carried_table_aligned [("a", [1, 2]), ("N", [3, 4])] [10, 11] [20, 22] [30, 33] [1000, 1001]
+    (by decide) (by decide) rfl rfl rfl).1
+/-- a feature named `N` is read through every path as what was written under it, not as a coordinate -/
+example : (getObsC iops "N" 1 (mkSt [("a", [1, 2]), ("N", [3, 4])] [10, 11] [20, 22] [30, 33] [1000, 1001] : St Int)).1.toOption
+    = some 4 := by decide +kernel
 
 end TV.C01
